@@ -37,7 +37,7 @@ func init() {
 	register(&Prop{
 		ID:    "C18",
 		Level: "exploration",
-		Rule:  "batches of generations over the character / wordlist / refusal recipe generators, including refused, all-attempts-failing and fault-aborted generations and the paths that do print (duplicate-word notice, empty-alphabet warning, rounding log line). Canary batches use alphabets and words made of private-use / rare-script characters and random 12-16 letter words, so any occurrence of any secret fragment (down to one character) in the captured fd 1/2 bytes is a leak; realistic batches (default recipe, shipped lists, digits) are searched for whole passwords and rejected candidates of >= 8 characters. evaluations = library calls made under capture; distinct_nontrivial = distinct secrets searched for",
+		Rule:  "batches of generations over the character / wordlist / refusal recipe generators, including refused, all-attempts-failing and fault-aborted generations and the paths that do print (duplicate-word notice, empty-alphabet warning, rounding log line); every third batch runs under a hostile process environment (locale names, debugging switches, and every variable the library was observed to read: cmd/envprobe under -test.testlogfile). Canary batches use alphabets and words made of private-use / rare-script characters and random 12-16 letter words, so any occurrence of any secret fragment (down to one character) in the captured fd 1/2 bytes is a leak; realistic batches (default recipe, shipped lists, digits) are searched for whole passwords and rejected candidates of >= 8 characters. evaluations = library calls made under capture; distinct_nontrivial = distinct secrets searched for",
 		Assumptions: []string{
 			"everything the library can write goes through fd 1, fd 2 or the standard logger (fd 2); the worker itself writes nothing there during a batch",
 			"rejected candidates are reconstructed from the draw path of the scripted tape and the sorted alphabet (verif canon hook)",
